@@ -740,20 +740,35 @@ std::atomic<uint64_t> g_max_seen_epoch{0};
 
 thread_local uint64_t tl_gap_epoch = 0;          // global epoch observed when the enter gap was reached
 thread_local bool tl_stale_publication = false;  // the epoch published by the last enter was stale by >= 2
-thread_local uint64_t tl_step_upper = 0;  // smallest upper epoch among the unprotected (newer than the guard's) list nodes this lookup stood on (0: none)
+thread_local uint64_t tl_step_upper = 0;  // upper bits of the oldest list node the current lookup may stand on without protecting it (0: no lookup)
 thread_local uint64_t tl_entered_epoch = 0;  // value published by this thread's last EnterEpoch
 thread_local bool tl_long_lookup = false;
 thread_local bool tl_in_gpe = false;
 thread_local int tl_worker = -1;
+thread_local EpochManager *tl_em = nullptr;  // mode=epochduo: the manager the thread is calling into (classification)
+thread_local int tl_duo_m = -1;
+std::atomic<uint64_t> g_stale_m[2];
+std::atomic<uint64_t> g_fwd_begin_epoch[2];  // global epoch from which the latest ForwardGlobalEpoch of a manager started
+std::atomic<bool> g_fast_hold{false};  // sub-workload D: short guard holds, short thread lifetimes
 
-// A list node with upper epoch U can be retired once the global epoch reaches U + 257 (no epoch of its range is
-// "new" or "previous" any more).  If that has happened to a node this lookup was standing on, the lookup was
-// stalled across the node's retirement.
+inline EpochManager *
+CurEm()
+{
+  return tl_em != nullptr ? tl_em : g_em;
+}
+
+// A list node covers the epochs [B, B + 255] (B = its upper bits) and is unlinked by the forward that starts at global
+// epoch B + 256 unless a guard pins one of its epochs; the global epoch is published after the unlinking.  The lookup
+// of a guard with epoch e walks from the newest node down to the node of e; the oldest node it can stand on without
+// protecting it has B = (e & ~255) + 256.  So a lookup can have been standing on a node that was retired under it iff
+// the global epoch reached (e & ~255) + 512 before the lookup returned.  The classification deliberately reads no list
+// node memory: a lookup stalled between loading a node pointer and the next hook would make the hook read freed memory.
 void
 ClassifyLookup()
 {
-  if (g_em == nullptr || tl_step_upper == 0 || tl_long_lookup) return;
-  if (g_em->GetCurrentEpoch() >= tl_step_upper + EpochManager::kCapacity + 1) {
+  const auto *em = CurEm();
+  if (em == nullptr || tl_step_upper == 0 || tl_long_lookup) return;
+  if (em->GetCurrentEpoch() >= tl_step_upper + EpochManager::kCapacity) {
     tl_long_lookup = true;
     g_long_lookup_stalls.fetch_add(1, kRlx);
   }
@@ -763,38 +778,36 @@ void
 PointCb(int id, const void *obj)
 {
   using namespace ::dbgroup::verif;
-  if (g_em == nullptr) return;
+  const auto *em = CurEm();
+  if (em == nullptr) return;
   switch (id) {
-    case kEpochEnterGap: tl_gap_epoch = g_em->GetCurrentEpoch(); break;
+    case kEpochEnterGap: tl_gap_epoch = em->GetCurrentEpoch(); break;
     case kEpochEntered: {
       // obj is the Epoch whose entered_ was just published: if the global epoch is already two or more ahead of the
       // published value, two complete forwards can have missed the pin (the value was read, then the thread was
       // stalled - by an injected delay or by the scheduler - before it published it)
+      // The pin is also lost with less than two forwards in between: a forward that starts from an epoch g of a newer
+      // 256-epoch range than e (its list {g+1, g, pins} does not reference e's node) and scans this thread's slot
+      // before the publication retires e's node before it publishes g+1.  Every forward that can have scanned the slot
+      // before the publication had begun by now, so the latest begin epoch decides.
       const auto e = static_cast<const ::dbgroup::thread::component::Epoch *>(obj)->GetProtectedEpoch();
       tl_entered_epoch = e;
-      if (e != std::numeric_limits<size_t>::max() && g_em->GetCurrentEpoch() >= e + 2) {
+      constexpr uint64_t kUp = ~static_cast<uint64_t>(EpochManager::kCapacity - 1);
+      std::atomic_thread_fence(std::memory_order_seq_cst);  // the publication is visible before the begin epoch is read
+      const auto begun = g_fwd_begin_epoch[tl_duo_m > 0 ? 1 : 0].load(kMo);
+      if (e != std::numeric_limits<size_t>::max() && (em->GetCurrentEpoch() >= e + 2 || (begun & kUp) > (e & kUp))) {
         tl_stale_publication = true;
         g_stale_publications.fetch_add(1, kRlx);
+        if (tl_duo_m >= 0) g_stale_m[tl_duo_m].fetch_add(1, kRlx);
       }
       break;
     }
-    case kEpochLookupBegin: {
-      // obj is the head of the node list as read by this lookup; if it is newer than the guard's own node the
-      // traversal is going to stand on it without protecting it
-      const auto upper = reinterpret_cast<const uint64_t *>(obj)[1];
-      if (upper > (tl_entered_epoch & ~static_cast<uint64_t>(EpochManager::kCapacity - 1)) && (tl_step_upper == 0 || upper < tl_step_upper)) tl_step_upper = upper;
+    case kEpochLookupBegin:
+      // a lookup for the epoch published last begins: upper bits of the oldest node it may stand on unprotected
+      tl_step_upper = (tl_entered_epoch & ~static_cast<uint64_t>(EpochManager::kCapacity - 1)) + EpochManager::kCapacity;
       break;
-    }
-    case kEpochLookupStep: {
-      // obj is the list node the lookup is standing on (valid now: the callback runs before any injected delay);
-      // ProtectedNode = {next, upper_epoch_, lists}: remember the newest node's upper epoch
-      ClassifyLookup();
-      // (every node that reaches this hook is newer than the guard's own node, i.e. not protected by the guard; the
-      // oldest of them is the first one that can be retired)
-      const auto upper = reinterpret_cast<const uint64_t *>(obj)[1];
-      if (tl_step_upper == 0 || upper < tl_step_upper) tl_step_upper = upper;
-      break;
-    }
+    case kEpochLookupStep: ClassifyLookup(); break;
+    case kEpochForwardBegin: g_fwd_begin_epoch[tl_duo_m > 0 ? 1 : 0].store(em->GetCurrentEpoch(), kMo); break;
     default: break;
   }
 }
@@ -861,7 +874,9 @@ void
 HoldGuard(Rng &r)
 {
   const auto hold = r.Below(8);
-  if (hold < 3) {
+  if (g_fast_hold.load(kRlx)) {
+    SpinNs(hold < 6 ? r.Below(20000) : r.Range(20000, 150000));
+  } else if (hold < 3) {
     SpinNs(r.Below(3000));
   } else if (hold < 6) {
     SpinNs(r.Below(200000));
@@ -1064,6 +1079,18 @@ Run()
       g_plan.th_yield = 0;
       g_plan.th_spin = 0;
       g_plan.th_sleep = 100;
+    } else if (g_cfg.sub == "D") {
+      // thread churn at full speed while the coordinator is parked inside its scan of the per-thread slots: workers live
+      // for a handful of operations, exit quickly, and their successors are started at once onto the vacated ID
+      g_fast_hold.store(true);
+      for (int p : {kEpochForwardBegin, kEpochForwardCollected, kEpochForwardRetired, kEpochForwardEnd}) g_plan.prob[p] = 30;
+      g_plan.prob[kEpochScanSlot] = static_cast<uint32_t>(r.Range(3000, 16000));
+      for (int p : {kIdExitBegin, kIdExitMiddle, kIdExitEnd}) g_plan.prob[p] = 2500;
+      g_plan.th_yield = 0;
+      g_plan.th_spin = 64;
+      g_plan.th_sleep = 256;
+      g_plan.sleep_min_ns = 60000;
+      g_plan.sleep_max_ns = 600000;
     } else if (g_cfg.sub == "C") {
       g_plan.prob[kEpochLookupStep] = 30000;
       g_plan.th_yield = 0;
@@ -1080,7 +1107,7 @@ Run()
   (void)merger;
   ChaosThreadBegin(63, g_cfg.seed);
   t_chaos.cur_op = 4;
-  t_chaos.prob_div = g_cfg.fwdchaos ? 1 : 32;  // the coordinator mostly runs at full speed
+  t_chaos.prob_div = (g_cfg.fwdchaos || g_cfg.sub == "D") ? 1 : 32;  // the coordinator mostly runs at full speed
 
   Result res;
   if (em.GetCurrentEpoch() != EpochManager::kInitialEpoch) {
@@ -1090,17 +1117,47 @@ Run()
   (void)IDManager::GetThreadID();
   const int workers = static_cast<int>(std::min<size_t>(kN - 1, 15));
   const uint64_t forwards = ~0ULL;
-  const uint64_t target_ops = workers == 0 ? 0 : 12000 * g_cfg.scale;
-  const uint64_t min_forwards = 20000 * g_cfg.scale;
+  const uint64_t target_ops = 1500ULL * static_cast<uint64_t>(workers) * g_cfg.scale;  // worker operations
+  const uint64_t min_forwards = (g_cfg.sub == "D" ? 4000 : 20000) * g_cfg.scale;
   std::vector<std::thread> ths(workers);
   std::vector<std::thread> zombies;
   std::vector<uint64_t> gen(workers, 0);
+  Rng cr;  // the churner's generator (the coordinator keeps r)
+  cr.Seed(g_cfg.seed * 919 + kN);
+  const bool fast = g_cfg.sub == "D";
   auto spawn = [&](int w, int64_t probe) {
-    const uint64_t budget = 10 + r.Below(300);
+    const uint64_t budget = fast ? 2 + cr.Below(14) : 10 + cr.Below(300);
     g_reg[w].done.store(0, kMo);
     ths[w] = std::thread(Worker, w, g_cfg.seed * 1000 + (++gen[w]) * 64 + w, budget, probe);
   };
   for (int w = 0; w < workers; ++w) spawn(w, -1);
+  // churn: a dedicated thread (it takes no ID) replaces a worker that finished its budget at once, while the old thread
+  // may still be in its exit path and whatever the coordinator is doing; the replacement is steered onto the vacated ID
+  std::thread churner{[&] {
+    while (!g_stop.load(kRlx) && workers > 0) {
+      bool any_done = false;
+      for (int w = 0; w < workers && !g_stop.load(kRlx); ++w) {
+        if (g_reg[w].done.load(kMo) == 0) continue;
+        any_done = true;
+        zombies.push_back(std::move(ths[w]));
+        g_thread_replacements.fetch_add(1, kRlx);
+        const auto old_id = g_reg[w].thread_id.load(kMo);
+        const int64_t probe = (old_id == ~0ULL || cr.Chance(1, 4)) ? -1 : static_cast<int64_t>((old_id + kN - 1) % kN);
+        spawn(w, probe);
+        if (zombies.size() > 8) {
+          for (auto &z : zombies) z.join();
+          zombies.clear();
+        }
+      }
+      if (!any_done) {
+        if (fast) {
+          sched_yield();
+        } else {
+          SleepNs(50000);
+        }
+      }
+    }
+  }};
 
   uint64_t prev = em.GetCurrentEpoch();
   uint64_t quiescent_checks = 0;
@@ -1111,7 +1168,7 @@ Run()
   for (; f < forwards; ++f) {
     if ((f & 255) == 0) {
       if (NowNs() - t_begin > time_cap_ns) break;
-      if (f >= min_forwards && g_lists_checked.load(kRlx) + g_guards.load(kRlx) >= target_ops) break;
+      if (f >= min_forwards && g_ops_done.load(kRlx) >= target_ops) break;
     }
     if (g_cfg.pace_ns != 0 && workers > 0) SpinNs(r.Below(g_cfg.pace_ns + 1));
     TakeSnap(s1, workers);
@@ -1215,25 +1272,10 @@ Run()
       g_pause.store(0, kMo);
     }
     if ((f & 63) == 0) ClientPoint(kCpUser);
-    if ((f & 3) == 0 && workers > 0) {
-      // churn: a worker that finished its budget is replaced at once (while its thread may still be in its exit
-      // path); the replacement is steered onto the ID being vacated
-      const int w = static_cast<int>(r.Below(workers));
-      if (g_reg[w].done.load(kMo) != 0) {
-        zombies.push_back(std::move(ths[w]));
-        g_thread_replacements.fetch_add(1, kRlx);
-        const auto old_id = g_reg[w].thread_id.load(kMo);
-        const int64_t probe = (old_id == ~0ULL || r.Chance(1, 4)) ? -1 : static_cast<int64_t>((old_id + kN - 1) % kN);
-        spawn(w, probe);
-        if (zombies.size() > 8) {
-          for (auto &z : zombies) z.join();
-          zombies.clear();
-        }
-      }
-    }
   }
   g_stop.store(true);
   g_pause.store(0);
+  churner.join();
   for (auto &t : ths) {
     if (t.joinable()) t.join();
   }
@@ -1269,8 +1311,10 @@ Run()
   return 0;
 }
 
-// mode=epochstart: many fresh managers; N-1 workers make their FIRST CreateEpochGuard on the manager at the same
-// instant (spin barrier), hold the guard, and the coordinator checks C04 over a few forwards.
+// mode=epochstart: many fresh managers; persistent workers (each already owns its thread ID) make their FIRST
+// CreateEpochGuard on the manager at the same instant (spin barrier plus a few nanoseconds of random skew), hold the
+// guard, and the coordinator checks C04 over a few forwards.  Every fourth round uses fresh threads instead, whose
+// first call also claims the thread ID.
 int
 RunStart()
 {
@@ -1278,32 +1322,105 @@ RunStart()
   Result res;
   Rng r;
   r.Seed(g_cfg.seed * 31 + kN);
-  const int workers = static_cast<int>(std::min<size_t>(kN - 1, 15));
-  const uint64_t rounds = workers == 0 ? 0 : 300 * g_cfg.scale;
-  uint64_t pairs = 0, done = 0;
-  for (uint64_t round = 0; round < rounds; ++round) {
+  // odd seeds: all IDs but the coordinator's go to persistent workers; even seeds: half of them, the rest is used by
+  // rounds with fresh threads
+  const int avail = static_cast<int>(std::min<size_t>(kN - 1, 15));
+  const int workers = (g_cfg.seed & 1) ? avail : (avail + 1) / 2;
+  const int fresh_cap = static_cast<int>(std::min<size_t>(kN - 1 - workers, 15));
+  const uint64_t rounds = workers == 0 ? 0 : 6000 * g_cfg.scale;
+  uint64_t pairs = 0, done = 0, fresh_rounds = 0, survivor_pairs = 0;
+  std::atomic<uint64_t> gate{0}, release{0};
+  std::atomic<int> created{0}, finished{0};
+  std::atomic<bool> quit{false};
+  std::atomic<EpochManager *> cur_em{nullptr};
+  std::vector<uint64_t> epochs(16, 0);
+  std::vector<uint64_t> skew(16, 0);
+  std::atomic<uint64_t> part_mask{0};
+  std::atomic<uint64_t> release_w[16];
+  for (auto &x : release_w) x.store(0);
+  auto body = [&](int w, uint64_t round) {
+    auto *em = cur_em.load(kMo);
+    while (gate.load(std::memory_order_acquire) < round) {
+    }
+    SpinNs(skew[w]);
+    {
+      EpochGuard g = em->CreateEpochGuard();
+      epochs[w] = g.GetProtectedEpoch();
+      created.fetch_add(1, kMo);
+      while (release.load(kMo) < round && release_w[w].load(kMo) < round) sched_yield();
+    }
+    finished.fetch_add(1, kMo);
+  };
+  std::atomic<uint64_t> announce{0};
+  std::vector<std::thread> pers;
+  for (int w = 0; w < workers; ++w) {
+    pers.emplace_back([&, w] {
+      if (g_preempt_run.load(kRlx)) PreemptRegister();
+      (void)IDManager::GetThreadID();
+      uint64_t seen = 0;
+      while (true) {
+        uint64_t a = 0;
+        while ((a = announce.load(std::memory_order_acquire)) == seen && !quit.load(kRlx)) sched_yield();
+        if (quit.load(kRlx)) break;
+        seen = a;
+        if (part_mask.load(kMo) & (1ULL << w)) body(w, a);
+      }
+      PreemptUnregister();
+    });
+  }
+  const auto t0 = NowNs();
+  for (uint64_t round = 1; round <= rounds; ++round) {
+    if ((round & 127) == 0 && NowNs() - t0 > 60ULL * 1000000000ULL) break;
     auto *em = new (g_em_storage) EpochManager{};
     g_em = em;
     (void)IDManager::GetThreadID();
-    std::atomic<int> gate{0}, created{0}, release{0};
-    std::vector<std::thread> ths;
-    std::vector<uint64_t> epochs(workers, 0);
-    for (int w = 0; w < workers; ++w) {
-      ths.emplace_back([&, w] {
-        if (g_preempt_run.load(kRlx)) PreemptRegister();
-        while (gate.load(std::memory_order_acquire) == 0) {
-        }
-        {
-          EpochGuard g = em->CreateEpochGuard();
-          epochs[w] = g.GetProtectedEpoch();
-          created.fetch_add(1, kMo);
-          while (release.load(kMo) == 0) sched_yield();
-        }
-        PreemptUnregister();
-      });
+    cur_em.store(em, kMo);
+    created.store(0, kMo);
+    finished.store(0, kMo);
+    // fresh threads (every 16th round, such rounds are ~20x more expensive): the persistent workers keep their IDs, so
+    // this needs spare IDs
+    const bool fresh = (round % 16) == 0 && fresh_cap >= 1;
+    const int cnt = fresh ? fresh_cap : workers;
+    // participants: all, or a random subset of at least two (one when there is only one)
+    uint64_t mask = (1ULL << cnt) - 1;
+    if (cnt > 2 && r.Chance(1, 2)) {
+      mask = 0;
+      while (__builtin_popcountll(mask) < 2) mask |= 1ULL << r.Below(cnt);
+      if (r.Chance(1, 2)) mask |= r.Next() & ((1ULL << cnt) - 1);
     }
-    gate.store(1, std::memory_order_release);
-    while (created.load(kMo) < workers) sched_yield();
+    const int nPart = __builtin_popcountll(mask);
+    for (int w = 0; w < cnt; ++w) skew[w] = r.Chance(1, 2) ? 0 : r.Below(400);
+    std::vector<std::thread> ths;
+    if (fresh) {
+      ++fresh_rounds;
+      part_mask.store(0, kMo);
+      for (int w = 0; w < cnt; ++w) {
+        if (!(mask & (1ULL << w))) continue;
+        ths.emplace_back([&, w, round] {
+          if (g_preempt_run.load(kRlx)) PreemptRegister();
+          body(w, round);
+          PreemptUnregister();
+        });
+      }
+    } else {
+      part_mask.store(mask, kMo);
+      announce.store(round, std::memory_order_release);
+      SpinNs(3000);  // let the participants reach the barrier
+    }
+    gate.store(round, std::memory_order_release);
+    const auto tw = NowNs();
+    while (created.load(kMo) < nPart) {
+      if (NowNs() - tw > g_cfg.hang_s * 1000000000ULL) {
+        Violate("C04", "CreateEpochGuard-does-not-return:first-use-of-a-fresh-manager",
+                Fmt("capacity=%zu: only %d of %d threads returned from their first CreateEpochGuard on a fresh manager within %" PRIu64 " s", kN, created.load(), nPart,
+                    g_cfg.hang_s));
+        res.counters["evaluations"] = pairs + done;
+        EmitResult(res, "hang");
+        fflush(stdout);
+        _exit(0);
+      }
+      sched_yield();
+    }
     uint64_t cur = em->GetCurrentEpoch();
     for (int f = 0; f < 3; ++f) {
       em->ForwardGlobalEpoch();
@@ -1314,34 +1431,328 @@ RunStart()
         list = l;
       }
       const auto m = em->GetMinEpoch();
-      for (int w = 0; w < workers; ++w) {
+      for (int w = 0; w < cnt; ++w) {
+        if (!(mask & (1ULL << w))) continue;
         ++pairs;
         if (std::find(list.begin(), list.end(), epochs[w]) == list.end() || m > epochs[w]) {
           Violate("C04", "live-guard-epoch-not-protected:first-use-of-a-fresh-manager-by-simultaneous-threads",
-                  Fmt("capacity=%zu: %d threads made their first CreateEpochGuard on a fresh manager at the same instant; worker %d's guard "
+                  Fmt("capacity=%zu: %d threads (%s) made their first CreateEpochGuard on a fresh manager at the same instant; worker %d's guard "
                       "(epoch %" PRIu64 ") is alive, yet the list published for epoch %" PRIu64 " is %s and GetMinEpoch()=%zu",
-                      kN, workers, w, epochs[w], cur, ListStr(list).c_str(), m));
+                      kN, nPart, fresh ? "fresh threads" : "threads that own their IDs already", w, epochs[w], cur, ListStr(list).c_str(), m));
           f = 3;
           break;
         }
       }
     }
-    release.store(1, kMo);
+    // then all guards but one are destroyed: all of them pin the same epoch, so only now does the list depend on the
+    // survivor's slot alone
+    if (g_log.n_viol.load() == 0 && nPart >= 1) {
+      int k = static_cast<int>(r.Below(cnt));
+      while (!(mask & (1ULL << k))) k = (k + 1) % cnt;
+      for (int w = 0; w < cnt; ++w) {
+        if (w != k) release_w[w].store(round, kMo);
+      }
+      while (finished.load(kMo) < nPart - 1) sched_yield();
+      for (int f = 0; f < 3; ++f) {
+        em->ForwardGlobalEpoch();
+        ++cur;
+        std::vector<size_t> list;
+        {
+          auto &&[g, l] = em->GetProtectedEpochs();
+          list = l;
+        }
+        const auto m = em->GetMinEpoch();
+        ++pairs;
+        ++survivor_pairs;
+        if (std::find(list.begin(), list.end(), epochs[k]) == list.end() || m > epochs[k]) {
+          Violate("C04", "live-guard-epoch-not-protected:first-use-of-a-fresh-manager-by-simultaneous-threads",
+                  Fmt("capacity=%zu: %d threads (%s) made their first CreateEpochGuard on a fresh manager at the same instant, then all guards but worker "
+                      "%d's were destroyed; its guard (epoch %" PRIu64 ") is alive, yet the list published for epoch %" PRIu64 " is %s and GetMinEpoch()=%zu",
+                      kN, nPart, fresh ? "fresh threads" : "threads that own their IDs already", k, epochs[k], cur, ListStr(list).c_str(), m));
+          break;
+        }
+      }
+    }
+    release.store(round, kMo);
+    while (finished.load(kMo) < nPart) sched_yield();
     for (auto &t : ths) t.join();
     em->~EpochManager();
     g_em = nullptr;
     ++done;
     if (g_log.n_viol.load() != 0) break;
   }
+  quit.store(true);
+  for (auto &t : pers) t.join();
   PreempterStop();
   res.Add("fresh_manager_rounds", done);
+  res.Add("fresh_manager_rounds_with_fresh_threads", fresh_rounds);
   res.Add("guard_forward_pairs_checked", pairs);
+  res.Add("sole_surviving_guard_forward_pairs_checked", survivor_pairs);
   res.counters["evaluations"] = pairs + done;
   res.signatures.push_back(Fmt("epochstart:N=%zu", kN));
+  if (fresh_rounds) res.signatures.push_back(Fmt("epochstart:N=%zu:fresh-threads", kN));
   res.samples.push_back(Fmt("{\"mode\":\"epochstart\",\"capacity\":%zu,\"rounds\":%" PRIu64 ",\"workers\":%d}", kN, done, workers));
   EmitResult(res, "ok");
   return 0;
 }
+
+/*##############################################################################
+ * mode=epochduo : two managers, each with its own coordinator, forwarding at the same time (C17, C04, C16, C20)
+ *############################################################################*/
+namespace duo
+{
+alignas(64) unsigned char g_storage[2][sizeof(EpochManager)];
+EpochManager *g_m[2] = {nullptr, nullptr};
+constexpr int kDuoWorkers = 6;
+struct alignas(64) DReg {
+  std::atomic<uint64_t> id{0};
+  std::atomic<uint64_t> epoch{0};
+};
+DReg g_dreg[2][kDuoWorkers];
+std::atomic<uint64_t> g_active[2], g_touch[2];
+std::atomic<uint64_t> g_fwd[2], g_lists[2], g_pairs[2], g_exact[2], g_overlap_fwd{0};
+std::atomic<int> g_in_fwd[2];
+std::atomic<bool> g_dstop{false};
+
+const char *
+DuoClass(int m)
+{
+  if (tl_stale_publication) return "guard-epoch-was-already-stale-when-it-was-published";
+  if (tl_long_lookup) return "lookup-stalled-while-list-nodes-were-retired";
+  if (g_stale_m[m].load() != 0) return "after-another-thread-published-a-stale-epoch";
+  return "no-stall-observed";
+}
+
+void
+Coordinator(int m, int workers, uint64_t forwards)
+{
+  static thread_local ChaosMerger merger;
+  (void)merger;
+  ChaosThreadBegin(60 + m, g_cfg.seed);
+  t_chaos.cur_op = 4;
+  t_chaos.prob_div = 1;
+  tl_duo_m = m;
+  tl_em = g_m[m];
+  auto &em = *g_m[m];
+  (void)IDManager::GetThreadID();
+  uint64_t prev = em.GetCurrentEpoch();
+  if (prev != EpochManager::kInitialEpoch) Violate("C16", "initial-epoch-wrong", Fmt("manager %d: GetCurrentEpoch()=%" PRIu64 " initially", m, prev));
+  uint64_t sid1[kDuoWorkers], sep1[kDuoWorkers], sid2[kDuoWorkers];
+  const auto t0 = NowNs();
+  for (uint64_t f = 0; f < forwards && !g_dstop.load(kRlx); ++f) {
+    if ((f & 255) == 0 && NowNs() - t0 > 40ULL * 1000000000ULL) break;
+    for (int w = 0; w < workers; ++w) {
+      const auto a = g_dreg[m][w].id.load(kMo);
+      sep1[w] = g_dreg[m][w].epoch.load(kMo);
+      sid1[w] = (g_dreg[m][w].id.load(kMo) == a) ? a : 0;
+    }
+    const auto touch1 = g_touch[m].load(kMo);
+    const bool quiet1 = g_active[m].load(kMo) == 0;
+    g_in_fwd[m].store(1, kMo);
+    if (g_in_fwd[1 - m].load(kMo) != 0) g_overlap_fwd.fetch_add(1, kRlx);
+    em.ForwardGlobalEpoch();
+    g_in_fwd[m].store(0, kMo);
+    for (int w = 0; w < workers; ++w) sid2[w] = g_dreg[m][w].id.load(kMo);
+    const auto cur = em.GetCurrentEpoch();
+    g_fwd[m].fetch_add(1, kRlx);
+    if (cur != prev + 1) {
+      Violate("C16", "epoch-did-not-advance-by-exactly-one",
+              Fmt("two managers: manager %d GetCurrentEpoch()=%zu after its ForwardGlobalEpoch, previous %" PRIu64, m, cur, prev));
+    }
+    prev = cur;
+    std::vector<size_t> list;
+    size_t ge = 0;
+    tl_stale_publication = false;
+    tl_long_lookup = false;
+    tl_step_upper = 0;
+    try {
+      tl_in_gpe = true;
+      auto &&[g, l] = em.GetProtectedEpochs();
+      list = l;
+      tl_in_gpe = false;
+      ge = g.GetProtectedEpoch();
+    } catch (const std::exception &ex) {
+      tl_in_gpe = false;
+      Violate("C17", Fmt("epoch:GetProtectedEpochs:%s", DuoClass(m)), Fmt("two managers: coordinator of manager %d: exception %s", m, ex.what()));
+      continue;
+    }
+    const auto mn = em.GetMinEpoch();
+    const bool quiet = quiet1 && g_active[m].load(kMo) == 0 && g_touch[m].load(kMo) == touch1;
+    g_lists[m].fetch_add(1, kRlx);
+    bool bad = ge != cur || list.size() < 2 || list.front() != cur || list[1] != cur - 1;
+    for (size_t i = 1; i < list.size() && !bad; ++i) bad = list[i] >= list[i - 1];
+    if (bad) {
+      Violate("C17", Fmt("epoch:GetProtectedEpochs:%s", DuoClass(m)),
+              Fmt("two managers forwarding at the same time: coordinator (sole forwarder and sole reader) of manager %d: guard epoch %zu, current epoch "
+                  "%zu, list %s (expected first element = guard epoch, second = preceding epoch, strictly descending); history class: %s",
+                  m, ge, cur, ListStr(list).c_str(), DuoClass(m)));
+    } else if (quiet) {
+      g_exact[m].fetch_add(1, kRlx);
+      if (list.size() != 2 || mn != cur - 1) {
+        Violate("C20", "published-list-differs-from-reference-model:no-guard-on-this-manager-while-another-manager-forwards",
+                Fmt("two managers: no guard of manager %d existed from before its ForwardGlobalEpoch until its list was read, yet the list for epoch %zu is "
+                    "%s and GetMinEpoch()=%zu (expected [%zu,%zu] and %zu)",
+                    m, cur, ListStr(list).c_str(), mn, cur, cur - 1, cur - 1));
+      }
+    }
+    if (mn > cur) Violate("C16", "GetMinEpoch-exceeds-later-GetCurrentEpoch", Fmt("manager %d: GetMinEpoch()=%zu, current %zu", m, mn, cur));
+    for (int w = 0; w < workers; ++w) {
+      if (sid1[w] == 0 || sid1[w] != sid2[w]) continue;
+      g_pairs[m].fetch_add(1, kRlx);
+      const auto e = sep1[w];
+      if (std::find(list.begin(), list.end(), e) == list.end() || mn > e) {
+        Violate("C04", "live-guard-epoch-not-protected:two-managers-forwarding-at-the-same-time",
+                Fmt("manager %d: guard #%" PRIu64 " (epoch %" PRIu64 ", worker %d) was registered before ForwardGlobalEpoch started and is still registered "
+                    "after it returned, but the list published for epoch %zu is %s and GetMinEpoch()=%zu",
+                    m, sid1[w], e, w, cur, ListStr(list).c_str(), mn));
+      }
+    }
+    if (g_cfg.pace_ns != 0 && (f & 7) == 0) SpinNs(t_chaos.rng.Below(g_cfg.pace_ns + 1));
+    g_ops_done.fetch_add(1, kRlx);
+  }
+  g_dstop.store(true);
+  ChaosThreadEnd();
+}
+
+void
+DuoWorker(int w, uint64_t seed)
+{
+  static thread_local ChaosMerger merger;
+  (void)merger;
+  ChaosThreadBegin(w, seed);
+  t_chaos.cur_op = 3;
+  Rng r;
+  r.Seed(seed * 977 + static_cast<uint64_t>(w));
+  uint64_t last_cur[2] = {0, 0};
+  std::atomic<uint64_t> *uid = &g_guard_uid;
+  auto take = [&](int m) {
+    g_active[m].fetch_add(1, kMo);
+    g_touch[m].fetch_add(1, kMo);
+    tl_duo_m = m;
+    tl_em = g_m[m];
+    EpochGuard g = g_m[m]->CreateEpochGuard();
+    g_dreg[m][w].epoch.store(g.GetProtectedEpoch(), kMo);
+    g_dreg[m][w].id.store(uid->fetch_add(1) + 1, kMo);
+    g_guards.fetch_add(1, kRlx);
+    return g;
+  };
+  auto drop = [&](int m, EpochGuard &g) {
+    g_dreg[m][w].id.store(0, kMo);
+    {
+      EpochGuard dead{std::move(g)};
+    }
+    g_touch[m].fetch_add(1, kMo);
+    g_active[m].fetch_sub(1, kMo);
+  };
+  while (!g_dstop.load(kRlx)) {
+    const int m = static_cast<int>(r.Below(2));
+    for (int k = 0; k < 2; ++k) {
+      const auto mn = g_m[k]->GetMinEpoch();
+      const auto c = g_m[k]->GetCurrentEpoch();
+      g_mono_checks.fetch_add(1, kRlx);
+      if (mn > c) Violate("C16", "GetMinEpoch-exceeds-later-GetCurrentEpoch", Fmt("two managers: manager %d GetMinEpoch()=%zu then GetCurrentEpoch()=%zu", k, mn, c));
+      if (c < last_cur[k]) Violate("C16", "GetCurrentEpoch-decreased", Fmt("two managers: manager %d: %" PRIu64 " then %zu", k, last_cur[k], c));
+      last_cur[k] = c;
+    }
+    auto g = take(m);
+    if (r.Chance(1, 4)) {
+      auto g2 = take(1 - m);  // one guard of each manager at the same time
+      SpinNs(r.Below(30000));
+      drop(1 - m, g2);
+    }
+    if (r.Chance(1, 8)) {
+      SleepNs(r.Range(100000, 1500000));
+    } else {
+      SpinNs(r.Below(60000));
+    }
+    drop(m, g);
+    // leave windows without any guard
+    if (r.Chance(1, 3)) SleepNs(r.Range(50000, 800000));
+  }
+  ChaosThreadEnd();
+}
+
+int
+Run()
+{
+  g_point_cb = &PointCb;
+  struct sigaction sa {};
+  sa.sa_sigaction = &SegvHandler;
+  sa.sa_flags = SA_SIGINFO;
+  sigaction(SIGSEGV, &sa, nullptr);
+  sigaction(SIGBUS, &sa, nullptr);
+  Rng r;
+  r.Seed(g_cfg.seed * 1237 + kN);
+  {
+    using namespace ::dbgroup::verif;
+    std::vector<int> cand = {kEpochForwardBegin, kEpochForwardCollected, kEpochForwardRetired, kEpochForwardEnd, kEpochScanSlot, kEpochGuardCreated};
+    MakePlan(r, cand, 1);
+    for (int p : cand) g_plan.prob[p] = std::min<uint32_t>(g_plan.prob[p], 1500);
+    g_plan.prob[kEpochEnterGap] = 0;
+    g_plan.prob[kEpochLookupStep] = 0;
+    g_plan.th_yield = 100;
+    g_plan.th_spin = 230;
+    g_plan.th_sleep = 256;
+    g_plan.sleep_max_ns = 200000;
+  }
+  Result res;
+  if (kN < 2) {
+    res.counters["evaluations"] = 0;
+    EmitResult(res, "ok");
+    return 0;
+  }
+  for (int m = 0; m < 2; ++m) g_m[m] = new (g_storage[m]) EpochManager{};
+  const int workers = static_cast<int>(std::min<size_t>(kN - 2, kDuoWorkers));
+  const uint64_t forwards = 40000 * g_cfg.scale;
+  std::vector<std::thread> ths;
+  for (int w = 0; w < workers; ++w) ths.emplace_back(DuoWorker, w, g_cfg.seed * 100 + w);
+  std::thread c0{Coordinator, 0, workers, forwards}, c1{Coordinator, 1, workers, forwards};
+  {
+    // structural watchdog: a coordinator that stays inside one call for hang_s seconds
+    uint64_t last[2] = {~0ULL, ~0ULL}, since[2] = {NowNs(), NowNs()};
+    while (!g_dstop.load(kRlx)) {
+      SleepNs(20000000);
+      for (int m = 0; m < 2; ++m) {
+        const auto v = g_fwd[m].load(kRlx);
+        if (v != last[m]) {
+          last[m] = v;
+          since[m] = NowNs();
+        } else if (NowNs() - since[m] > g_cfg.hang_s * 1000000000ULL && !g_dstop.load(kRlx)) {
+          Violate("C16", "ForwardGlobalEpoch-or-GetProtectedEpochs-does-not-return:two-managers-forwarding-at-the-same-time",
+                  Fmt("capacity=%zu: the coordinator of manager %d completed no forward for %" PRIu64 " s (%s ForwardGlobalEpoch)", kN, m, g_cfg.hang_s,
+                      g_in_fwd[m].load() ? "inside" : "outside"));
+          res.Add("hangs", 1);
+          res.counters["evaluations"] = g_fwd[0].load() + g_fwd[1].load();
+          EmitResult(res, "hang");
+          fflush(stdout);
+          _exit(0);
+        }
+      }
+    }
+  }
+  c0.join();
+  c1.join();
+  for (auto &t : ths) t.join();
+  PreempterStop();
+  res.Add("forwards", g_fwd[0].load() + g_fwd[1].load());
+  res.Add("forwards_started_while_the_other_manager_was_forwarding", g_overlap_fwd.load());
+  res.Add("lists_checked", g_lists[0].load() + g_lists[1].load());
+  res.Add("lists_compared_with_model", g_exact[0].load() + g_exact[1].load());
+  res.Add("guard_forward_pairs_checked", g_pairs[0].load() + g_pairs[1].load());
+  res.Add("guards_created", g_guards.load());
+  res.Add("monotonic_read_checks", g_mono_checks.load());
+  res.Add("stale_epoch_publications", g_stale_publications.load());
+  res.counters["evaluations"] = g_fwd[0].load() + g_fwd[1].load() + g_guards.load();
+  res.signatures.push_back(Fmt("epochduo:N=%zu:workers=%d", kN, workers));
+  if (g_overlap_fwd.load()) res.signatures.push_back(Fmt("epochduo:N=%zu:overlapping-forwards", kN));
+  if (g_exact[0].load() + g_exact[1].load()) res.signatures.push_back(Fmt("epochduo:N=%zu:quiet-window-exact-list", kN));
+  res.samples.push_back(Fmt("{\"mode\":\"epochduo\",\"capacity\":%zu,\"workers\":%d,\"forwards\":[%" PRIu64 ",%" PRIu64 "],\"overlapping\":%" PRIu64 "}", kN, workers,
+                            g_fwd[0].load(), g_fwd[1].load(), g_overlap_fwd.load()));
+  for (int m = 0; m < 2; ++m) g_m[m]->~EpochManager();
+  EmitResult(res, "ok");
+  return 0;
+}
+}  // namespace duo
 }  // namespace ep
 
 /*##############################################################################
@@ -1751,6 +2162,7 @@ main(int argc, char **argv)
   if (g_cfg.mode == "churnstorm") return idm::RunChurnStorm();
   if (g_cfg.mode == "epoch") return ep::Run();
   if (g_cfg.mode == "epochstart") return ep::RunStart();
+  if (g_cfg.mode == "epochduo") return ep::duo::Run();
   if (g_cfg.mode == "model") return md::Run();
   if (g_cfg.mode == "long") return md::RunLong();
   fprintf(stderr, "unknown mode\n");
